@@ -15,9 +15,10 @@
 (* -17/-16/15/16, -129/-128/127/128, short branches -128..127 from the following instruction, PCR bases.            *)
 (* Constants: Full (FALSE: the offset / PCR / direct-page cross products are complete for the representative        *)
 (* mnemonics Rep and rotate 1 in Mod for the others; TRUE: complete for all), Salt (interior values, rotation),     *)
-(* K (branch distances within K of both limits), Part (0 = all leaves, 1 = offsets + PCR, 2 = the rest).            *)
+(* K (branch distances within K of both limits), Parts / Part (the run takes the mnemonics whose opcode number is    *)
+(* congruent to Part modulo Parts: Parts parallel runs cover the table).                                           *)
 EXTENDS Isa6809, Json
-CONSTANTS Full, Salt, K, Part
+CONSTANTS Full, Salt, K, Parts, Part
 VARIABLES leaf
 
 ASSUME TableSane
@@ -28,14 +29,15 @@ Dprs == <<0, 18, 255>>
 Forces3 == <<"", "<", ">">>
 Forces4 == <<"", "<", ">", "<<">>
 Interior(lo, hi, n) == lo + ((Salt * 7919 + n * 104729 + 12345) % (hi - lo + 1))
-Rep == {"LDA", "LDY", "CMPS", "LEAX", "NEG", "JSR", "STD"}     \* one of every opcode class and page
+Rep == {"LDA", "LDY", "CMPS", "LEAX", "NEG"}     \* 8-bit ALU, page-2 and page-3 16-bit, LEA, read-modify-write
 Mod == 8
 OpNoF == [mn \in Mnems |-> (CHOOSE e \in OpTab : e.mn = mn).op]
 OpNo(mn) == OpNoF[mn]
 Keep(mn, h) == Full \/ mn \in Rep \/ (h + OpNo(mn) + Salt) % Mod = 0
 L(s, p, d) == [s |-> s, pc |-> p, dpr |-> d]
 
-MnsOf(modes) == {e.mn : e \in {x \in OpTab : x.mode \in modes}}
+Mine(mn) == OpNo(mn) % Parts = Part
+MnsOf(modes) == {e.mn : e \in {x \in OpTab : x.mode \in modes /\ Mine(x.mn)}}
 IdxMns == MnsOf({"idx"})
 AddrMns == MnsOf({"dir", "ext"})
 
@@ -66,14 +68,14 @@ LvAddr == {L(SAddr(x[1], Forces3[x[2]], AddrSeq(Dprs[x[3]])[x[4]]), -1, Dprs[x[3
              x \in {y \in AddrMns \X (1..3) \X (1..3) \X (1..19) : (y[2] = 1 /\ y[3] = 1) \/ Keep(y[1], y[2] + y[3] + y[4])}}
 
 \* ---- immediate ----------------------------------------------------------------------------------------------------
-ImmMns == {mn \in Mnems : ImmWidth(mn) # 0}
+ImmMns == {mn \in Mnems : ImmWidth(mn) # 0 /\ Mine(mn)}
 ImmVals(w) == {0, 1, 2^w - 1, 2^w, 2^(w - 1), 2^(w - 1) - 1, -1, -(2^(w - 1)), -(2^(w - 1)) - 1, 85, 170, 2^w + 5, 65541,
                Interior(0, 2^w - 1, 6)} \cup (IF w = 16 THEN {4660, 43981, 255, 256} ELSE {})
 LvImm == UNION {{L(SImm(mn, v), -1, 0) : v \in ImmVals(ImmWidth(mn))} : mn \in ImmMns}
 \* addressing modes an instruction does not have: no reading
 LvIllegal == {L(SImm(mn, 5), -1, 0) : mn \in (IdxMns \cup AddrMns) \ ImmMns}
-             \cup {L(SAddr(mn, "", v), -1, 0) : mn \in {"LEAX", "LEAY", "LEAS", "LEAU"}, v \in {18, 4660}}
-             \cup {L(SIdx(mn, FALSE, "zero", "X", "", 0), -1, 0) : mn \in {"ORCC", "ANDCC", "CWAI"}}
+             \cup {L(SAddr(mn, "", v), -1, 0) : mn \in {x \in {"LEAX", "LEAY", "LEAS", "LEAU"} : Mine(x)}, v \in {18, 4660}}
+             \cup {L(SIdx(mn, FALSE, "zero", "X", "", 0), -1, 0) : mn \in {x \in {"ORCC", "ANDCC", "CWAI"} : Mine(x)}}
 
 LvInh == {L(SNone(mn), -1, 0) : mn \in MnsOf({"inh"})}
 
@@ -96,11 +98,9 @@ LvRegs == UNION {{L(SRegs(mn, ListSeq(S)), -1, 0) : S \in (SUBSET (ListNames \ {
                                                       <<"X", "Y", Own(mn), "CC">>}} : mn \in StackMns}
 LvRR == {L(SRR(mn, RRNames[i], RRNames[j]), -1, 0) : mn \in MnsOf({"rr"}), i \in 1..10, j \in 1..10}
 
-Leaves == (IF Part \in {0, 1} THEN LvIdxOff \cup LvPcr ELSE {})
-          \cup (IF Part \in {0, 2} THEN LvIdxPlain \cup LvExtInd \cup LvAddr \cup LvImm \cup LvIllegal \cup LvInh \cup LvRel8
-                                       \cup LvRel16 \cup LvRegs \cup LvRR ELSE {})
-
-Init == leaf \in Leaves
+\* (a disjunction, not one big union: TLC enumerates the sets one after the other)
+Init == \/ leaf \in LvIdxOff \/ leaf \in LvPcr \/ leaf \in LvIdxPlain \/ leaf \in LvExtInd \/ leaf \in LvAddr \/ leaf \in LvImm
+        \/ leaf \in LvIllegal \/ leaf \in LvInh \/ leaf \in LvRel8 \/ leaf \in LvRel16 \/ leaf \in LvRegs \/ leaf \in LvRR
 Next == UNCHANGED leaf
 
 \* ---- checked at every leaf (R = the readings, C = the convention's choices; bound once per leaf by Leaf below) ----
